@@ -12,6 +12,7 @@ import (
 	"time"
 
 	"github.com/google/gopacket"
+	"github.com/miscreant/miscreant.go"
 	"github.com/scionproto/scion/pkg/slayers"
 	"github.com/scionproto/scion/pkg/slayers/path"
 	"github.com/scionproto/scion/pkg/slayers/path/empty"
@@ -50,6 +51,7 @@ const (
 	nSocks    = nSameAddr + nOther + nPriv
 	// more steps than this that could not even be built fail the run (kind harness.skipped)
 	maxSkipped = 5
+	maxRetried = 20
 )
 
 var sentinelWaits = []time.Duration{6 * time.Second, 6 * time.Second, 8 * time.Second}
@@ -287,6 +289,11 @@ func (d *drv) awaitSentinel(c *net.UDPConn, rcv int, dst *net.UDPAddr, sentinelP
 	d.lost = true
 }
 
+// tooManyRetries: sentinels that need re-sending are rare (6 s without an answer on
+// loopback); a listener that garbles or drops every few replies would otherwise cost the
+// run minutes per case.  The cases driven so far stand.
+func (d *drv) tooManyRetries() bool { return d.nRetried > maxRetried }
+
 // exchange sends pkt and then sentinelPkt from socket sender to dst and returns
 // every datagram that arrived at any of the sockets up to and including the
 // answer to the sentinel (recognised by seqOf), in two groups.
@@ -409,6 +416,74 @@ func (d *drv) ntsRequest(b0 byte, variant int64, r *lib.Rng) []byte {
 	return buf
 }
 
+// sizedLen is the total length of the request ntsSized builds.
+func sizedLen(idLen, np, phLen int) int {
+	pad4 := func(n int) int { return (n + 3) &^ 3 }
+	return ntp.PacketLen + 4 + pad4(idLen) + 4 + 124 + np*(4+pad4(phLen)) + 40
+}
+
+func sizedParams(data []byte) (b0 byte, idLen, np, phLen int) {
+	b0, idLen = 0x23, 32
+	if len(data) >= 5 {
+		b0, idLen, np, phLen = data[0], int(data[1]), int(data[2]), int(data[3])<<8|int(data[4])
+	}
+	if idLen < 32 {
+		idLen = 32
+	}
+	return
+}
+
+// ntsSized builds an intact NTS request of a chosen total length with an encoder of the
+// harness's own (not nts.EncodePacket, which cannot exceed 1024 bytes): unique identifier of
+// idLen bytes, one real cookie under the current key, np cookie placeholders of phLen bytes,
+// authenticator (AES-SIV-CMAC-256 under the cookie's C2S key over everything before it).
+func (d *drv) ntsSized(data []byte, r *lib.Rng) []byte {
+	b0, idLen, np, phLen := sizedParams(data)
+	key := d.provider.Current()
+	c2s, s2c := make([]byte, 32), make([]byte, 32)
+	rand.Read(c2s)
+	rand.Read(s2c)
+	sc := ntske.ServerCookie{Algo: 15, S2C: s2c, C2S: c2s}
+	ec, err := sc.EncryptWithNonce(key.Value, key.ID)
+	if err != nil {
+		panic(err)
+	}
+	buf := make([]byte, ntp.PacketLen, 4096)
+	buf[0] = b0
+	tx := r.Bytes(8)
+	copy(buf[40:], tx)
+	copy(buf[32:], tx)
+	ext := func(typ uint16, val []byte) {
+		n := (len(val) + 3) &^ 3
+		buf = binary.BigEndian.AppendUint16(buf, typ)
+		buf = binary.BigEndian.AppendUint16(buf, uint16(4+n))
+		buf = append(buf, val...)
+		buf = append(buf, make([]byte, n-len(val))...)
+	}
+	id := make([]byte, idLen)
+	rand.Read(id)
+	ext(0x104, id)
+	ext(0x204, ec.Encode())
+	for i := 0; i < np; i++ {
+		ext(0x304, make([]byte, phLen))
+	}
+	aead, err := miscreant.NewAEAD("AES-CMAC-SIV", c2s, 16)
+	if err != nil {
+		panic(err)
+	}
+	nonce := make([]byte, 16)
+	rand.Read(nonce)
+	ct := aead.Seal(nil, nonce, nil, buf)
+	a := binary.BigEndian.AppendUint16(nil, uint16(len(nonce)))
+	a = binary.BigEndian.AppendUint16(a, uint16(len(ct)))
+	a = append(append(a, nonce...), ct...)
+	ext(0x404, a)
+	if len(buf) != sizedLen(idLen, np, phLen) {
+		panic(fmt.Sprintf("sized NTS request: %d bytes, expected %d", len(buf), sizedLen(idLen, np, phLen)))
+	}
+	return buf
+}
+
 // NTS label of a request by construction, independent of what the NTS code of /repo says
 // about it: the harness knows how it built the datagram.
 const (
@@ -440,6 +515,15 @@ func (d *drv) ntsField(label int, payload []byte) string {
 
 // labelOf is the by-construction label of a scripted step's payload.
 func labelOf(s step) int {
+	if s.k == kNTS && s.a == 14 {
+		// intact by construction; the NTS code of /repo admits packets of up to nts.MaxPacketLen
+		// = 1024 bytes (consts pins the constant), a longer one is no valid request to it
+		_, idLen, np, phLen := sizedParams(s.data)
+		if sizedLen(idLen, np, phLen) <= 1024 {
+			return ntsYes
+		}
+		return ntsNo
+	}
 	if s.k == kNTS {
 		return ntsLabelOf(s.a)
 	}
@@ -478,6 +562,9 @@ func (d *drv) payloadOf(s step, firstReply [][]byte, r *lib.Rng) []byte {
 		}
 		return s.data
 	case kNTS:
+		if s.a == 14 {
+			return d.ntsSized(s.data, r)
+		}
 		b0 := byte(0x23)
 		if len(s.data) > 0 {
 			b0 = s.data[0]
@@ -611,7 +698,7 @@ func (d *drv) afterLoss(n *int, s step) bool {
 }
 
 func (d *drv) runIP(tags string, steps []step, r *lib.Rng) {
-	if d.lost {
+	if d.lost || d.tooManyRetries() {
 		return
 	}
 	args := stepsString(steps)
@@ -1087,7 +1174,7 @@ func (d *drv) skip(what string, err error) {
 }
 
 func (d *drv) runSCION(tags string, steps []step, r *lib.Rng) {
-	if d.lost {
+	if d.lost || d.tooManyRetries() {
 		return
 	}
 	args := stepsString(steps)
@@ -1130,7 +1217,7 @@ func (d *drv) runSCION(tags string, steps []step, r *lib.Rng) {
 // and some at the SCION listener (steps with a header), then one sentinel per socket, and
 // collects per socket: all listener goroutines of both listeners work at the same time.
 func (d *drv) runMixed(tags string, steps []step, r *lib.Rng) {
-	if d.lost {
+	if d.lost || d.tooManyRetries() {
 		return
 	}
 	args := stepsString(steps)
